@@ -254,9 +254,15 @@ fn run(args: &Args, rep: &mut Report) {
             |ix| json!({"split_index_of_len_plus_1": ix.index(1 << 20)}),
         ),
     );
+    if args.tier == vcore::rt::Tier::Thorough {
+        checks::fuzzrun::campaign(rep, args, "parser", 400000, checks::oracle::fuzz_parser);
+    }
 }
 
 fn replay(sub: &str, case: &Value) -> Result<(), String> {
+    if sub.starts_with("libfuzzer-") {
+        return checks::oracle::fuzz_parser(&vcore::drive::case_bytes(case));
+    }
     match sub {
         "transition-table" => {
             let s = case["state"].as_u64().unwrap_or(0) as usize;
